@@ -33,7 +33,10 @@ func (propC03) Gen(r *Rand) *Plan {
 	tp := c05GenTask(r, kind, true, -1, -1)
 	// more faults than in C05: most steps carry one
 	for i := range tp.Ops {
-		if tp.Ops[i].F == nil && r.Bool(0.5) {
+		if isTokKind(kind) && (tp.Ops[i].Op == "buffer" || tp.Ops[i].Op == "stream" || tp.Ops[i].Op == "manual") && r.Bool(0.15) {
+			tp.Ops[i].F = &Fault{Kind: r.Pick([]string{"state_nil", "state_empty"}), At: r.Intn(1 << 20)}
+		}
+		if tp.Ops[i].F == nil && r.Bool(0.5) && tp.Ops[i].Op != "strings" && tp.Ops[i].Op != "streamstrings" && tp.Ops[i].Op != "config" {
 			tp.Ops[i].F = c05Fault(r, kind, tp.Ops[i].Op)
 			if f := tp.Ops[i].F; f != nil && strings.HasPrefix(f.Kind, "fn_") {
 				name := "Faulty"
